@@ -76,7 +76,7 @@ def replay(w, ctx):
 def floors(m, tier):
     out = []
     c = m['counters']
-    need = 1200 if tier == 'quick' else 20000
+    need = 1200 if tier == 'quick' else 12000
     if c.get('c11_long_judged', 0) < need:
         out.append('only %d long listings judged' % c.get('c11_long_judged', 0))
     for k in ('empty_matching', 'some_student_unassigned', 'unused_project', 'one_sided_lecturer_cost_zero',
